@@ -56,10 +56,11 @@ def check(ctx):
                 at = R.atomic_target(body, c)
                 if at and at[1] == lockf:
                     meth = at[2]
-                    if meth == "swap":
-                        o = lockrules.ordering_of(body, c["args"][2])
-                        ctx.ob("R18.3", f"{k}|acquire-ordering", o in lockrules.ORD_OK_ACQ, body.loc(b), f"flag acquire is swap(true, {o}); needs >= Acquire")
-                    elif meth == "store":
+                    is_cas_acq = meth in ("compare_exchange", "compare_exchange_weak") and R.op_int(c["args"][1]) == 0 and R.op_int(c["args"][2]) == 1
+                    if (meth == "swap" and R.op_int(c["args"][1]) == 1) or is_cas_acq:
+                        o = lockrules.ordering_of(body, c["args"][3 if is_cas_acq else 2])
+                        ctx.ob("R18.3", f"{k}|acquire-ordering", o in lockrules.ORD_OK_ACQ, body.loc(b), f"flag acquire is {meth}(.. true, {o}); needs >= Acquire on success")
+                    elif meth == "store" or (meth == "swap" and R.op_int(c["args"][1]) == 0):
                         o = lockrules.ordering_of(body, c["args"][2])
                         after_write = any(b in body.reach_from(w) for w in wblocks)
                         ok = o in lockrules.ORD_OK_REL or not after_write
